@@ -268,6 +268,17 @@ def run_case(case, rec):
             rec.violation(sig + "/forward-crash/m%s" % ("1" if m == 1 else ">1"),
                           "separable %s term crashed: %s" % (term, c), m=m, d=d, B=B)
             return
+        if case.get("judge") == "closed":
+            # used by C04: the separable term against the closed form alone
+            rec.count("separable_terms_vs_closed_form")
+            if abs(closed) > 1e-6:
+                rec.nontrivial(("spinn-term", term, d, r, m, B, case["seed"]) + tuple(extra_key))
+            rec.set_sample(term=term, d=d, r=r, m=m, B=B, separable=vs, closed_form=closed)
+            if not close(vs, closed, 1e-8, 1e-10):
+                rec.violation(sig + "/separable-vs-closed-form" + ("/m>1" if m > 1 else ""),
+                              "%s on a separable network: term %r, closed form %r %s" % (term, vs, closed, list(extra_key)),
+                              separable=vs, closed=closed)
+            return
         vp = float(guard.call(lp.evaluate, pp, batch_p)[1][tname])
         rec.count("grid_values_compared")
         if abs(vp) > 1e-6:
